@@ -27,11 +27,13 @@ TRUSTED = [
 ASSUMPTIONS = [
     "theorems are about one attribute string / one MediaWiki line / one TSV tag row and the abstract traversal; whole-file "
     "round trips, cross-format equality and the independent XML listing are checked on the implementation only (testing)",
-    "round-trip theorems hold on the stated character classes (attr_ok, name_ok, desc_ok, wiki_attr_ok, "
-    "row_free_of_reserved); the classes are narrower than what schema compliance allows -- the gap is findings "
-    "C05-F1..F3",
+    "round-trip theorems hold on the stated character classes (attr_ok, name_ok, desc_text_ok/desc_ok, wiki_attr_ok); "
+    "since the repairs fix-F1..F4 (VERIF_C05_FIXED=1, default) the description class is everything the XML reader can "
+    "deliver except text containing '<n' / '</' (the MediaWiki reader deletes nowiki words inside a description: the "
+    "unrepaired rest of finding C05-F3); with VERIF_C05_FIXED=0 model and oracle describe the code before the repairs",
 ]
 
+FIXED = K.FIXED     # VERIF_C05_FIXED, default 1: the repaired code (fix-F1..F4) and the full statements
 DATA = "hed/schema/schema_data"
 LEGACY = ("HED_score_1.0.0.xml", "HED_testlib_1.0.2.xml")
 
@@ -226,6 +228,14 @@ def build_generated_cases(cs, rng, n, hist):
             if rng.random() < 0.1:
                 b["extra"] = True
             cs.add("cmp", {"a": attrs, "b": b}, ["cmp", K.sx_attrs(attrs), K.sx_attrs(b)])
+        raw = (desc or "")
+        if rng.random() < 0.5:
+            raw = rng.choice(["", " ", "  ", "\t", "\u00a0", "\u3000"]) + raw + rng.choice(["", " ", "\n", "\u00a0 "])
+        cs.add("xmld", {"text": raw}, ["xmld", K.sx_s(raw)])
+        if rng.random() < 0.4:
+            incl = rng.random() < 0.5
+            cs.add("tsve", {"strip": strip, "incl": incl, "name": name, "attrs": attrs, "desc": desc},
+                   ["tsve", strip, incl, K.sx_s(name), K.sx_attrs(attrs), K.sx_desc(desc)])
         hist["gen_wide" if wide else "gen_inclass"] = hist.get("gen_wide" if wide else "gen_inclass", 0) + 1
         hist[f"gen_nattrs_{len(attrs)}"] = hist.get(f"gen_nattrs_{len(attrs)}", 0) + 1
         if any(isinstance(v, str) and "," in v for v in attrs.values()):
@@ -338,6 +348,22 @@ def check_case(kind, p, m, res, stats):
             if mo[0] != "ok" or mo[1] != short or not same_entry(mo[2], at) or mo[3] != (desc or None):
                 res.report("tsv-row-decodes-to-entry", {"schema": p.get("schema"), "merged": p.get("merged"), "row": p["row"]},
                            f"decoded={mo} entry={ex}")
+        return False
+    if kind == "xmld":
+        im = K.impl_xml_desc(p["text"])
+        mo = K.un_desc(m)
+        if im != mo:
+            return corr(f"xml description impl={im!r} model={mo!r}")
+        if FIXED and im is not None and (im != im.strip() or not im):
+            res.report("xml-description-normal", {"text": p["text"]}, f"loaded description {im!r}")
+        return False
+    if kind == "tsve":
+        im = K.impl_tsv_write_entry(p["strip"], p["incl"], p["name"], p["attrs"], p["desc"])
+        mo = [K.un_s(m[0]), K.un_s(m[1]), K.un_s(m[2]), K.un_desc(m[3]) or None]
+        if im != mo:
+            return corr(f"tsv entry row impl={im} model={mo}")
+        if FIXED and not p["incl"] and (im[0] or im[2] or im[3]):
+            res.report("tsv-stub-row", {"name": p["name"], "attrs": p["attrs"], "desc": p["desc"]}, f"row={im}")
         return False
     if kind == "tsvw":
         im = K.impl_tsv_write(p["strip"], p["name"], p["attrs"], p["desc"])
@@ -493,7 +519,21 @@ def run_codec(tier, rng, res, hist):
 
 # ---------------------------------------------------------------- run
 
+# the repaired findings: only recognised with VERIF_C05_FIXED=0 (record of the code before fix-F1..F4)
+LEGACY_FINDINGS = {
+    "C05-F1": "description with outer white space kept by the XML reader but stripped by the MediaWiki/TSV readers",
+    "C05-F2": "TSV written with QUOTE_NONE but read with default quoting: a description starting with a double quote is altered",
+    "C05-F3": "'extend here' / nowiki words inside a description break or alter the MediaWiki reload",
+    "C05-F4": "Schema2DF._write_entry ignored include_props: unmerged TSV save of a library unit in a standard unit class "
+              "reloads with a duplicate unit class",
+}
+
+
 def run(tier, seed, res, model_ok=True, proof_ok=True):
+    if not FIXED:
+        res.known_ids = dict(getattr(res, "known_ids", {}))
+        for k, v in LEGACY_FINDINGS.items():
+            res.known_ids.setdefault(k, {"id": k, "what": "(unrepaired code, VERIF_C05_FIXED=0) " + v})
     rng = random.Random(seed)
     hist = {}
     t0 = time.time()
